@@ -4,12 +4,11 @@
    CRLF needs no case); the header parser's line counter is 1 + the number of '\n' it consumed,
    blank lines before the header included.  Iterator half: every expansion of a row carries the
    line of its source row (C05 spec_rows keeps de_line; C02: dr_line row = er_line).
-   The parser half (Stmt::DataRow.line = line counter at the row = header line + Eol tokens consumed)
-   is in proofs/ParserLinesProof.v when present; until then it is validated by the correspondence
-   check against the layout generator's own record of physical lines.
+   Parser half (proofs/ParserLinesProof.v): the line recorded for a data row = the line counter at
+   the row = header line + Eol tokens consumed; combined with the lexer half: C19_row_line.
    Property theorems only; proofs in proofs/LexerProof.v, ExpandProof.v, IterLogProof.v. *)
 From DTR Require Import Prelude I64 Ast FramedMap Lexer Parser Bind Eval Stmt Iter ExpandSpec.
-From DTR.proofs Require Import LexerProof ExpandProof IterLogProof.
+From DTR.proofs Require Import LexerProof ParserProof ParserLinesProof ExpandProof IterLogProof.
 Local Open Scope N_scope.
 
 (* the number of Eol tokens before any token = the number of newlines before it in the text *)
@@ -36,6 +35,31 @@ Proof.
   intros tc row r H. unfold spec_rows in H. apply in_map_iff in H. destruct H as [p [<- _]]. reflexivity.
 Qed.
 
+(* THE property: for every text that parses, the line recorded for every data row (at any depth, the row of a repeat included) is 1 + the number of newline characters before the row's first token *)
+Theorem C19_row_line :
+  forall (s : text) (p : parsed),
+  parse s = Ok p ->
+  Forall
+  (fun line : N =>
+  exists u v : list N, s = u ++ v /\ line = N.of_nat (1 + count_nl u) /\ row_starts_here v)
+  (row_lines (p_stmts p)).
+Proof. exact C19_row_line. Qed.
+
+(* ... and rows are recorded in source order *)
+Theorem C19_row_line_ordered :
+  forall (s : text) (p : parsed),
+  parse s = Ok p ->
+  exists us : list text,
+  Forall2
+  (fun (line : N) (u : list N) =>
+  exists v : list N, s = u ++ v /\ line = N.of_nat (1 + count_nl u) /\ row_starts_here v)
+  (row_lines (p_stmts p)) us /\ Sorted.StronglySorted strict_prefix us.
+Proof. exact C19_row_line_ordered. Qed.
+
+
+Check C19_row_line.
 Check C19_eol_tokens_are_newlines.
 Print Assumptions C19_eol_tokens_are_newlines.
 Print Assumptions C19_header_lines.
+Print Assumptions C19_row_line.
+Print Assumptions C19_row_line_ordered.
